@@ -53,6 +53,27 @@ def sh(cmd, cwd=None, timeout=3600, input=None):
     return p.returncode, p.stdout
 
 
+def fresh_interpreters(codes, env=None, timeout=60, workers=8):
+    """Run each Python source text in `codes` as the whole program of a NEW interpreter importing /repo's working tree
+    (module-level lazy imports, memo tables, warn-once sets and other process-wide state start empty), several at a time.
+    Returns, per code, (returncode, stdout, stderr-tail); a child that times out gives (None, '', 'timeout')."""
+    from concurrent.futures import ThreadPoolExecutor
+    e = dict(os.environ)
+    e["PYTHONPATH"] = os.path.join(REPO, "src")
+    e.setdefault("TZ", "UTC")
+    e["PYTHONDONTWRITEBYTECODE"] = "1"
+    e.update(env or {})
+    def one(code):
+        try:
+            p = subprocess.run([sys.executable, "-c", code], stdout=subprocess.PIPE, stderr=subprocess.PIPE, text=True,
+                               timeout=timeout, env=e, cwd="/")
+            return p.returncode, p.stdout, p.stderr[-400:]
+        except subprocess.TimeoutExpired:
+            return None, "", "timeout"
+    with ThreadPoolExecutor(max_workers=workers) as ex:
+        return list(ex.map(one, codes))
+
+
 class LeanState:
     def __init__(self):
         self.gen_report = {}
@@ -375,14 +396,34 @@ def run_check(mod, tier, seed, replay=None):
         ctx.escalated = True
     exit_code = 0
     infra_error = None
+    def crashed(stage, ex):
+        # The harness itself failed while handling what the implementation returned (a value of an unexpected shape or
+        # type, e.g. a bare datetime where a pair is documented).  On a tree where the checks pass this does not happen,
+        # so it is treated like a correspondence that no longer checks: escalate, keep searching for a failing input.
+        import traceback
+        tb = traceback.format_exc().strip().splitlines()
+        ctx.mismatches.append({"op": "%s-crashed" % stage, "input": " | ".join(l.strip() for l in tb[-6:])[:900],
+                               "impl": "%s: %s" % (type(ex).__name__, str(ex)[:300]), "model": "-"})
+        ctx.note("%s stopped by %s: %s (recorded as a correspondence that no longer checks)" % (stage, type(ex).__name__, str(ex)[:200]))
+        ctx.escalated = True
     try:
         if ctx.lean.driver_ok:
-            mod.correspondence(ctx)
+            try:
+                mod.correspondence(ctx)
+            except (DriverError, subprocess.TimeoutExpired):
+                raise
+            except Exception as ex:
+                crashed("correspondence", ex)
         else:
             ctx.note("driver unavailable: correspondence skipped")
         if ctx.mismatches:
             ctx.escalated = True
-        mod.oracle(ctx)
+        try:
+            mod.oracle(ctx)
+        except (DriverError, subprocess.TimeoutExpired):
+            raise
+        except Exception as ex:
+            crashed("oracle", ex)
     except (DriverError, subprocess.TimeoutExpired) as ex:
         infra_error = "%s: %s" % (type(ex).__name__, ex)
     # ---- decision ----
